@@ -878,7 +878,7 @@ func Run(ch chooser.Chooser, cfg Config, bodies []func(tid int)) *Result {
 		if len(runnable) == 0 && detached > 0 {
 			// Only detached threads could still make progress: give them a
 			// while to come back on their own.
-			if s.pollIn(1000) {
+			if s.pollIn(5000) {
 				continue
 			}
 			res.Deadlock, res.Stuck = true, true
